@@ -76,7 +76,7 @@ func firstDiff(a, b [][2]float64, L float64) string {
 		return false
 	}
 	for i := 0; i+1 < len(pts); i++ {
-		if pts[i+1]-pts[i] < 1e-9 || pts[i] < 0 || pts[i+1] > L {
+		if pts[i+1]-pts[i] < 1e-12*L || pts[i] < 0 || pts[i+1] > L {
 			continue
 		}
 		mid := (pts[i] + pts[i+1]) / 2
@@ -128,7 +128,8 @@ type fineSub struct {
 	L        float64
 	maxSeg   float64
 	closed   bool
-	straight bool // only line segments
+	straight bool    // only line segments
+	sc       float64 // length scale of the subpath (= L): every tolerance is relative to it
 }
 
 func flatten(sub []hc.Seg, n int) fineSub {
@@ -161,6 +162,10 @@ func flatten(sub []hc.Seg, n int) fineSub {
 		if f.L-l0 > f.maxSeg {
 			f.maxSeg = f.L - l0
 		}
+	}
+	f.sc = f.L
+	if !(f.sc > 0) {
+		f.sc = math.SmallestNonzeroFloat64
 	}
 	return f
 }
@@ -198,12 +203,12 @@ func (f *fineSub) candidates(q hc.P2, smin float64) []float64 {
 	var outDist []float64
 	lastChord := -10
 	for i := 0; i+1 < len(f.pts); i++ {
-		if f.cum[i+1] < smin-1e-5*(1+f.L) {
+		if f.cum[i+1] < smin-1e-5*f.sc {
 			continue
 		}
 		a, b := f.pts[i], f.pts[i+1]
 		cl := b.Dist(a)
-		if hc.DistPointSeg(q, a, b) > 2*cl+1e-9 {
+		if hc.DistPointSeg(q, a, b) > 2*cl+1e-9*f.sc {
 			continue
 		}
 		// refine on the true curve in the parameter window of this chord
@@ -233,15 +238,16 @@ func (f *fineSub) candidates(q hc.P2, smin float64) []float64 {
 		u := (lo + hi) / 2
 		pu := seg.At(u)
 		dq := pu.Dist(q)
-		if dq > 1e-7*(1+f.L) {
+		if dq > 1e-7*f.sc {
 			continue
 		}
 		s := f.cum[i] + pu.Dist(a)
-		if s < smin-1e-5*(1+f.L) {
+		if s < smin-1e-5*f.sc {
 			continue
 		}
-		if n := len(out); n > 0 && i <= lastChord+2 && i/f.n == lastChord/f.n {
-			// same passage seen from a neighbouring chord: keep the closer one
+		if n := len(out); n > 0 && i <= lastChord+2 && math.Abs(out[n-1]-s) < 1e-7*f.sc {
+			// the same passage seen from a neighbouring chord (same arc length): keep the closer one.
+			// Different arc lengths are different passages even on neighbouring chords (fold-backs).
 			if dq < outDist[n-1] {
 				out[n-1], outDist[n-1] = s, dq
 			}
@@ -277,7 +283,7 @@ func locate(f *fineSub, pf *fineSub, smin float64) (obsPiece, bool) {
 	best := obsPiece{dev: math.Inf(1)}
 	found := false
 	for _, s0 := range f.candidates(pf.pts[0], smin) {
-		if !f.closed && s0+pf.L > f.L+1e-3*(1+f.L) {
+		if !f.closed && s0+pf.L > f.L+1e-3*f.sc {
 			continue
 		}
 		dev := 0.0
@@ -297,7 +303,7 @@ func locate(f *fineSub, pf *fineSub, smin float64) (obsPiece, bool) {
 			best = obsPiece{a: s0, b: s0 + pf.L, dev: dev}
 			found = true
 		}
-		if dev < 1e-9*(1+f.L) {
+		if dev < 1e-9*f.sc {
 			break
 		}
 	}
@@ -389,16 +395,25 @@ func splitAtError(sub *canvas.Path, ts []float64, f *fineSub) (worst float64, ki
 
 // judgeDash compares q = p.Dash(off, d...) with the pattern semantics. d must be non-empty with
 // entries >= 0.
-func judgeDash(c *hc.Ctx, tag string, p *canvas.Path, off float64, d []float64, q *canvas.Path) {
+func judgeDash(c *hc.Ctx, tag string, p *canvas.Path, off float64, d []float64, q *canvas.Path) string {
+	kind, desc, replay := judgeDashKind(c, tag, p, off, d, q)
+	if kind != "" {
+		fail(c, kind, desc, replay)
+	}
+	return kind
+}
+
+// judgeDashKind judges without recording the failure: returns its class ("" = the property holds).
+func judgeDashKind(c *hc.Ctx, tag string, p *canvas.Path, off float64, d []float64, q *canvas.Path) (string, string, map[string]any) {
 	c.Evals++
 	replay := map[string]any{"path": p.String(), "offset": off, "d": d, "out": q.String()}
 	kind, desc, ksub := judgeDash1(c, tag, p, off, d, q)
 	if kind == "" {
 		c.Count(tag + ":judged-ok")
-		return
+		return "", "", nil
 	}
 	if ksub != nil && ksub.f.straight && beyondPeriod(off, d) {
-		// regression class of the defect repaired by 8d5b47c (only named so on straight subpaths,
+		// regression class of the defect repaired by e14817f (only named so on straight subpaths,
 		// where no arc-length approximation can be the cause)
 		kind = "pattern-mismatch:negative-offset-beyond-period"
 	} else if ksub != nil && ksub.path != nil && math.IsNaN(ksub.path.Length()) {
@@ -435,7 +450,7 @@ func judgeDash(c *hc.Ctx, tag string, p *canvas.Path, off float64, d []float64, 
 			desc = fmt.Sprintf("[segment kinds %s: Path.SplitAt/Length are off by %.3g = %.2g%% of the longest segment on this subpath] %s", cls, e, 100*e/ksub.f.maxSeg, desc)
 		}
 	}
-	fail(c, kind, desc, replay)
+	return kind, desc, replay
 }
 
 type subJudge struct {
@@ -496,20 +511,30 @@ func judgeDash1(c *hc.Ctx, tag string, p *canvas.Path, off float64, d []float64,
 				}
 			}
 			o, ok := locate(&subs[kk], &pf, sm)
-			if !(ok && o.dev < 1e-3*(1+subs[kk].L)) && subs[kk].closed && sm > 0 {
+			if !(ok && o.dev < 1e-3*subs[kk].sc) && subs[kk].closed && sm > 0 {
 				// closed subpath: the piece up to (or through) the start point comes first, the
 				// following pieces start again from arc length 0
 				o, ok = locate(&subs[kk], &pf, 0)
 			}
-			if ok && o.dev < 1e-3*(1+subs[kk].L) {
+			if !(ok && o.dev < 1e-3*subs[kk].sc) && !subs[kk].straight && pf.L <= 0.02*subs[kk].maxSeg {
+				// a piece shorter than twice the cut tolerance that runs backwards along the path (the
+				// approximated inverse arc length is not monotone within its accuracy): its extent
+				// is within the tolerance of where it should be, take the stretch it covers
+				rv := reversed(&pf)
+				if o2, ok2 := locate(&subs[kk], &rv, math.Max(0, sm-0.02*subs[kk].maxSeg)); ok2 && o2.dev < 1e-3*subs[kk].sc {
+					o, ok = o2, true
+					c.Count(tag + ":tolerated backward piece shorter than 2% of the longest segment")
+				}
+			}
+			if ok && o.dev < 1e-3*subs[kk].sc {
 				o.sub = kk
 				obs[kk] = append(obs[kk], o)
-				if dv := o.dev / (1 + subs[kk].L) * 1e6; dv > maxDevPPM {
+				if dv := o.dev / subs[kk].sc * 1e6; dv > maxDevPPM {
 					maxDevPPM = dv
 				}
 				k = kk
 				smin = o.b
-				if subs[kk].closed && smin >= subs[kk].L-1e-9 {
+				if subs[kk].closed && smin >= subs[kk].L-1e-9*subs[kk].sc {
 					smin -= subs[kk].L
 					if smin < 0 {
 						smin = 0
@@ -519,18 +544,31 @@ func judgeDash1(c *hc.Ctx, tag string, p *canvas.Path, off float64, d []float64,
 				break
 			}
 		}
+		if !located && os.Getenv("C05_DEBUG") != "" {
+			f := &subs[k]
+			fmt.Fprintf(os.Stderr, "DEBUG unlocated piece %q L=%.6g on sub %d (L=%.6g) smin=%.6g\n", pathOf(pc), pf.L, k, f.L, smin)
+			for _, s0 := range f.candidates(pf.pts[0], 0) {
+				dev := 0.0
+				for j := range pf.pts {
+					if dd := pf.pts[j].Dist(f.at(s0 + pf.cum[j])); dd > dev {
+						dev = dd
+					}
+				}
+				fmt.Fprintf(os.Stderr, "   candidate s0=%.6g dev=%.3g (limit %.3g)\n", s0, dev, 1e-3*f.sc)
+			}
+		}
 		if !located {
 			// Is the piece a stretch of the input path at all (anywhere, in either direction)? If it
 			// is, the pieces overlap or are out of order (that can be the inverse arc-length
 			// approximation); if it is not, the piece has left the path: never attributed to accuracy.
 			onPath := false
 			for kk := range subs {
-				if o, ok := locate(&subs[kk], &pf, 0); ok && o.dev < 1e-3*(1+subs[kk].L) {
+				if o, ok := locate(&subs[kk], &pf, 0); ok && o.dev < 1e-3*subs[kk].sc {
 					onPath = true
 					break
 				}
 				rv := reversed(&pf)
-				if o, ok := locate(&subs[kk], &rv, 0); ok && o.dev < 1e-3*(1+subs[kk].L) {
+				if o, ok := locate(&subs[kk], &rv, 0); ok && o.dev < 1e-3*subs[kk].sc {
 					onPath = true
 					break
 				}
@@ -556,7 +594,7 @@ func judgeDash1(c *hc.Ctx, tag string, p *canvas.Path, off float64, d []float64,
 		var got [][2]float64
 		wrapped := false
 		for _, o := range obs[kk] {
-			if o.b > f.L+1e-9 && f.closed {
+			if o.b > f.L+1e-9*f.sc && f.closed {
 				got = append(got, [2]float64{o.a, f.L}, [2]float64{0, o.b - f.L})
 				wrapped = true
 			} else {
@@ -564,9 +602,14 @@ func judgeDash1(c *hc.Ctx, tag string, p *canvas.Path, off float64, d []float64,
 			}
 		}
 		nb := 2*len(want) + 2
-		tolCut := 0.01*f.maxSeg + 1e-6*(1+f.L)
+		// Relative to the size of the subpath (the property must hold whatever the unit of the
+		// coordinates): 1% of the longest segment on curves (the accuracy of the Chebyshev inverse
+		// arc length, itself relative: bisection stops at 0.1% of the segment length); on straight
+		// subpaths 1e-7 of the length plus 1e-9, the latter for the library's absolute Epsilon = 1e-10
+		// in `pos+d[i]+Epsilon < length` (never looser than the former 1e-7*(1+L)).
+		tolCut := 0.01*f.maxSeg + 1e-6*f.sc
 		if f.straight {
-			tolCut = 1e-7 * (1 + f.L) // no inverse arc-length approximation involved
+			tolCut = 1e-7*f.sc + 1e-9
 		}
 		sd := symDiff(want, got, f.L)
 		rel := sd / float64(nb) / f.maxSeg
@@ -763,17 +806,205 @@ func oracleCurves(c *hc.Ctx) {
 		c.Count(tag + ":pattern " + cls)
 		c.Count(tag + ":" + ocls)
 		c.Count(tag + ":kinds " + kinds)
-		// Safety net (regression class of the defect repaired by 4102be9): Path.Length must be
+		q, ran, kind0, desc0, replay0 := runDashCaseKind(c, tag, p, off, d)
+		if kind0 != "" {
+			fail(c, kind0, desc0, replay0)
+		}
+		if it == 1 && q != nil {
+			c.Sample(fmt.Sprintf("oracle: Dash(%v, %v) on %q = %q", off, d, p.String(), q.String()))
+		}
+		// SCALE axis: the same shape, pattern and offset in another unit (a power of two, so that
+		// every floating-point operation of the library is exactly covariant and only absolute
+		// constants in the code can make a difference)
+		if ran && c.Chance(0.6) {
+			k := scaleExps[c.Intn(len(scaleExps))]
+			scaleCase(c, tag, p, off, d, q, kind0, k)
+		}
+	}
+}
+
+var scaleExps = []int{-13, -12, -10, -8, -7, -6, -5, -4, -3, -2, -1, 1, 3, 6, 10, 13}
+
+// scalePath rebuilds p with every coordinate and radius multiplied by s (through the public builder,
+// from the decoded raw data; not with the library's Transform).
+func scalePath(p *canvas.Path, s float64) *canvas.Path {
+	segs, err := hc.Decode(p.Data())
+	if err != nil {
+		return nil
+	}
+	q := &canvas.Path{}
+	for _, g := range segs {
+		switch g.Kind {
+		case 'M':
+			q.MoveTo(g.End.X*s, g.End.Y*s)
+		case 'L':
+			q.LineTo(g.End.X*s, g.End.Y*s)
+		case 'Q':
+			q.QuadTo(g.P1.X*s, g.P1.Y*s, g.End.X*s, g.End.Y*s)
+		case 'C':
+			q.CubeTo(g.P1.X*s, g.P1.Y*s, g.P2.X*s, g.P2.Y*s, g.End.X*s, g.End.Y*s)
+		case 'A':
+			q.ArcTo(g.Rx*s, g.Ry*s, g.Phi*180/math.Pi, g.Large, g.Sweep, g.End.X*s, g.End.Y*s)
+		case 'Z':
+			q.Close()
+		}
+	}
+	return q
+}
+
+// scaleCase runs Dash on the scaled twin (scale 2^k) of a case, judges it with the same (relative)
+// tolerances, and checks the metamorphic law Dash(s*p, s*off, s*d) = s*Dash(p, off, d).
+func scaleCase(c *hc.Ctx, tag string, p *canvas.Path, off float64, d []float64, q *canvas.Path, kind0 string, k int) {
+	s := math.Ldexp(1, k)
+	base, err := hc.Decode(p.Data())
+	ps0 := scalePath(p, 1)
+	ps := scalePath(p, s)
+	if err != nil || ps == nil || ps0 == nil {
+		return
+	}
+	// the rebuilt path must be the same path (the builder may normalise commands; skip if it did)
+	if b0, _ := hc.Decode(ps0.Data()); len(b0) != len(base) {
+		c.Count("scale:skip-builder-normalised")
+		return
+	}
+	if bs, _ := hc.Decode(ps.Data()); len(bs) != len(base) {
+		c.Count("scale:skip-builder-normalised")
+		return
+	}
+	ds := make([]float64, len(d))
+	for i := range d {
+		ds[i] = d[i] * s
+	}
+	c.Count(fmt.Sprintf("scale:2^%d", k))
+	qs, ran, kindS, descS, replayS := runDashCaseKind(c, tag, ps, off*s, ds)
+	if kindS != "" {
+		if kind0 == "" {
+			// the same shape and pattern satisfy the property at scale 1 but not at this scale: never
+			// attributed to the (scale-free) accuracy of the arc-length inversion
+			c.Count("scale:ok-at-1-fails-scaled " + kindS)
+			replayS["scale"] = s
+			replayS["base_path"] = p.String()
+			kind := "scale-dependence:judged"
+			if k <= -10 && hasCubic(base) && kindS == "inverse-arc-length-accuracy" {
+				// known finding C05-scale-dependence-cubic-epsilon: solveQuadraticFormula's absolute
+				// Epsilon changes the inflection points found for cubics once coordinates are ~1e-3
+				kind = "scale-dependence:cubic-below-2^-10"
+			}
+			fail(c, kind, fmt.Sprintf("holds for the path at scale 1 but fails at scale 2^%d (%s): %s", k, kindS, descS), replayS)
+		} else {
+			fail(c, kindS, descS, replayS)
+		}
+	} else if kind0 != "" {
+		c.Count("scale:fails-at-1-ok-scaled")
+	}
+	if !ran || q == nil || qs == nil {
+		return
+	}
+	// metamorphic comparison with the result at scale 1 (on the rebuilt path, to compare like with like)
+	var q0 *canvas.Path
+	if msg := hc.Try(func() { q0 = ps0.Dash(off, append([]float64{}, d...)...) }); msg != "" {
+		return
+	}
+	c.Evals++
+	replay := map[string]any{"path": p.String(), "offset": off, "d": d, "scale": s, "scaled_path": ps.String(), "out": q0.String(), "scaled_out": qs.String()}
+	a, err1 := hc.Decode(q0.Data())
+	b, err2 := hc.Decode(qs.Data())
+	if err1 != nil || err2 != nil {
+		return
+	}
+	ext := 0.0
+	for _, g := range base {
+		ext = math.Max(ext, math.Max(math.Abs(g.End.X), math.Abs(g.End.Y)))
+	}
+	if len(a) != len(b) {
+		c.Count("scale:structure-differs (judged separately)")
+		return
+	}
+	worst := 0.0
+	for i := range a {
+		if a[i].Kind != b[i].Kind {
+			c.Count("scale:structure-differs (judged separately)")
+			return
+		}
+		worst = math.Max(worst, math.Max(math.Abs(b[i].End.X/s-a[i].End.X), math.Abs(b[i].End.Y/s-a[i].End.Y)))
+	}
+	maxSeg := 0.0
+	for _, sp := range hc.Subpaths(base) {
+		if f := flatten(sp, 64); f.maxSeg > maxSeg {
+			maxSeg = f.maxSeg
+		}
+	}
+	if !(maxSeg > 0) {
+		return
+	}
+	rel := worst / maxSeg
+	c.Count("scale:metamorphic deviation/longest segment " + bucket(rel))
+	if rel >= 1e-9 {
+		kinds := map[byte]bool{}
+		for _, g := range base {
+			kinds[g.Kind] = true
+		}
+		cls := ""
+		for _, kk := range []byte("QCA") {
+			if kinds[kk] {
+				cls += string(kk)
+			}
+		}
+		c.Count(fmt.Sprintf("scale:deviating 2^%d kinds %s", k, cls))
+	}
+	if rel*1e6 > maxScaleDevPPM {
+		maxScaleDevPPM = rel * 1e6
+	}
+	// Power-of-two scaling is exact in floating point, so a deviation comes from absolute constants
+	// in the code. When the case satisfies the property at scale 1, every cut there is within 1% of
+	// the longest segment of its true position; if the scaled result deviates by more than 2% some
+	// cut at that scale is off by more than 1% (triangle inequality): the result depends on the unit.
+	if kind0 == "" && rel > 0.02 {
+		kind := "scale-dependence:positions"
+		if k <= -10 && hasCubic(base) && rel <= 0.1 {
+			kind = "scale-dependence:cubic-below-2^-10"
+		}
+		fail(c, kind, fmt.Sprintf("Dash(2^%d*p, 2^%d*offset, 2^%d*d) deviates from 2^%d*Dash(p, offset, d) by %.3g of the longest segment", k, k, k, k, rel), replay)
+	}
+}
+
+func hasCubic(segs []hc.Seg) bool {
+	for _, g := range segs {
+		if g.Kind == 'C' {
+			return true
+		}
+	}
+	return false
+}
+
+var maxScaleDevPPM float64
+
+// runDashCase runs the real Dash on one input and judges the result; ran=false when Dash was not
+// called or did not return normally (q is nil when the path itself was returned).
+func runDashCase(c *hc.Ctx, tag string, p *canvas.Path, off float64, d []float64) (*canvas.Path, bool) {
+	q, ran, kind, desc, replay := runDashCaseKind(c, tag, p, off, d)
+	if kind != "" {
+		fail(c, kind, desc, replay)
+	}
+	return q, ran
+}
+
+// runDashCaseKind is runDashCase without recording the verdict of the pattern oracle (failures of
+// the run itself — panic, non-finite length, impurity — are recorded here).
+func runDashCaseKind(c *hc.Ctx, tag string, p *canvas.Path, off float64, d []float64) (*canvas.Path, bool, string, string, map[string]any) {
+	P := sum(d)
+	{
+		// Safety net (regression class of the defect repaired by e51fcfc): Path.Length must be
 		// finite, otherwise Dash's position loop never ends (+Inf) or never starts (NaN). Counted as
 		// a failure, never skipped silently; Dash is not called so that the harness survives.
 		if l := p.Length(); math.IsNaN(l) || math.IsInf(l, 0) {
 			c.Evals++
 			fail(c, "path-length-not-finite", fmt.Sprintf("Path.Length() = %v; Dash(%v, %v) would not terminate (+Inf) or returns the path undashed (NaN); Dash not called", l, off, d),
 				map[string]any{"path": p.String(), "offset": off, "d": d, "length": fmt.Sprint(l)})
-			continue
+			return nil, false, "", "", nil
 		} else if minPos := minPositive(d); minPos > 0 && l/minPos > 2000 {
 			c.Count(tag + ":skip-more-than-2000-pieces")
-			continue
+			return nil, false, "", "", nil
 		}
 		orig := append([]float64{}, p.Data()...)
 		if os.Getenv("C05_TRACE") != "" {
@@ -782,7 +1013,7 @@ func oracleCurves(c *hc.Ctx) {
 		var q *canvas.Path
 		if msg := hc.Try(func() { q = p.Dash(off, append([]float64{}, d...)...) }); msg != "" {
 			fail(c, "panic:Dash", msg, map[string]any{"path": p.String(), "offset": off, "d": d})
-			continue
+			return nil, false, "", "", nil
 		}
 		for i, x := range p.Data() {
 			if x != orig[i] && !(x != x && orig[i] != orig[i]) {
@@ -795,37 +1026,51 @@ func oracleCurves(c *hc.Ctx) {
 			// documented: solid stroke. Must be what the pattern prescribes: everything drawn
 			c.Count(tag + ":returned-whole")
 			if P > 0 {
-				L := 50.0
-				if w := expectedIntervals(off, d, L); symDiff(w, [][2]float64{{0, L}}, L) > 1e-9 {
+				L := 50.0 * P
+				if w := expectedIntervals(off, d, L); symDiff(w, [][2]float64{{0, L}}, L) > 1e-9*L {
 					fail(c, "whole-but-pattern-has-gaps", "Dash returned the path itself although the pattern has gaps", map[string]any{"path": p.String(), "offset": off, "d": d})
 				}
 			} else {
 				fail(c, "whole-for-all-zero", "Dash returned the path itself for an all-zero pattern", map[string]any{"path": p.String(), "offset": off, "d": d})
 			}
-			continue
+			return nil, true, "", "", nil
 		}
-		judgeDash(c, tag, p, off, d, q)
-		if it == 1 {
-			c.Sample(fmt.Sprintf("oracle: Dash(%v, %v) on %q = %q", off, d, p.String(), q.String()))
-		}
+		kind, desc, replay := judgeDashKind(c, tag, p, off, d, q)
+		return q, true, kind, desc, replay
 	}
 }
 
 // oracleRegressions replays the recorded inputs of the repaired defects on every run, so that a
 // recurrence is reported with its input whatever the seed.
 func oracleRegressions(c *hc.Ctx) {
+	if one := os.Getenv("C05_ONE"); one != "" {
+		// C05_ONE="<svg path>|<offset>|<d0,d1,...>": judge one input (debugging aid)
+		parts := strings.Split(one, "|")
+		p := canvas.MustParseSVGPath(parts[0])
+		var off float64
+		fmt.Sscan(parts[1], &off)
+		var d []float64
+		for _, x := range strings.Split(parts[2], ",") {
+			var v float64
+			fmt.Sscan(x, &v)
+			d = append(d, v)
+		}
+		q := p.Dash(off, append([]float64{}, d...)...)
+		k, desc, _ := judgeDashKind(c, "curve", p, off, d, q)
+		fmt.Fprintln(os.Stderr, "C05_ONE verdict:", k, desc)
+	}
 	cases := []struct {
 		name, path string
 		off        float64
 		d          []float64
 	}{
-		{"8d5b47c negative offset beyond one period", "M0 0L10 0", -5, []float64{2, 2}},
-		{"8d5b47c negative offset after folded leading zero", "M-1 0.25L3.625 0.25", -5, []float64{0, 5.375, 1.375, 3.375}},
-		{"d3f7b7f cut between SplitAt's length and Path.Length (arc+quad)", "M2 -4.5A13.99387774096553 6.996938870482765 30.392049502180505 1 1 -14.036 1Q0.325 10.114 -2.638 3.5", 7.644705817225682, []float64{5.764, 4.535}},
-		{"4102be9 collinear quad, Length was +Inf", "M-3.5 -1Q-2.415 -1 -8.25 -1", 0, []float64{1.75, 1.625}},
-		{"4102be9 quad ending at its start, Length was NaN", "M-12.8 11.062Q7 -8.5 -5 7.367Q-16.953 1.161 -9 -3Q3.75 4.75 -9 -3z", 3, []float64{3.9, 7.142}},
+		{"e14817f negative offset beyond one period", "M0 0L10 0", -5, []float64{2, 2}},
+		{"e14817f negative offset after folded leading zero", "M-1 0.25L3.625 0.25", -5, []float64{0, 5.375, 1.375, 3.375}},
+		{"8a98a46 cut between SplitAt's length and Path.Length (arc+quad)", "M2 -4.5A13.99387774096553 6.996938870482765 30.392049502180505 1 1 -14.036 1Q0.325 10.114 -2.638 3.5", 7.644705817225682, []float64{5.764, 4.535}},
+		{"e51fcfc collinear quad, Length was +Inf", "M-3.5 -1Q-2.415 -1 -8.25 -1", 0, []float64{1.75, 1.625}},
+		{"e51fcfc quad ending at its start, Length was NaN", "M-12.8 11.062Q7 -8.5 -5 7.367Q-16.953 1.161 -9 -3Q3.75 4.75 -9 -3z", 3, []float64{3.9, 7.142}},
 		{"219108c dash through a 180 degree turn", "M-3 4.25L-3 -11.094z", 48.5, []float64{0.625, 0.75}},
-		{"feae37f arc theta panic", "M0.46 1A20.229 3.491 0.01986189541452029 1 0 -3.75 -1.549A6.330337194810294 3.5119292427551345 30.000000000000014 0 0 7.75 2.25A16.25 1.702 59.99999999999999 1 0 4 -4.246A18.815 8 150.00000000000003 1 1 -14.818 8.715", 148, []float64{3.125, 1}},
+		{"fc041fc arc theta panic", "M0.46 1A20.229 3.491 0.01986189541452029 1 0 -3.75 -1.549A6.330337194810294 3.5119292427551345 30.000000000000014 0 0 7.75 2.25A16.25 1.702 59.99999999999999 1 0 4 -4.246A18.815 8 150.00000000000003 1 1 -14.818 8.715", 148, []float64{3.125, 1}},
 	}
 	for _, tc := range cases {
 		p, err := canvas.ParseSVGPath(tc.path)
@@ -900,5 +1145,6 @@ func finishHist(c *hc.Ctx) {
 			c.Sample(fmt.Sprintf("largest mean cut error on curves %.0f ppm of the longest segment: %s", v, maxCutErrCase[tag]))
 		}
 	}
-	c.Hist["observed-max piece deviation from path (ppm of 1+length)"] = int(math.Ceil(maxDevPPM))
+	c.Hist["observed-max metamorphic deviation under 2^k scaling (ppm of longest segment)"] = int(math.Ceil(maxScaleDevPPM))
+	c.Hist["observed-max piece deviation from path (ppm of length)"] = int(math.Ceil(maxDevPPM))
 }
